@@ -158,6 +158,8 @@ func (S *Scanner) scanComment(pos token.Position) {
 				return
 			}
 		}
+		// a line comment may also be ended by the end of the file
+		return
 	} else {
 		// / *-style comment * /
 		S.expect('*')
@@ -242,7 +244,7 @@ func (S *Scanner) scanEscape(quote rune) {
 
 	var i, base, max uint32
 	switch S.ch {
-	case 'a', 'b', 'f', 'n', 'r', 't', 'v', '\\', quote:
+	case 'a', 'b', 'f', 'n', 'r', 't', 'v', '\\', '\'', '"': // spec/gocc2.ebnf: _escaped_char
 		S.next()
 		return
 	case '0', '1', '2', '3', '4', '5', '6', '7':
